@@ -11,6 +11,7 @@ CONSTANTS
   Required = {"temp","active","inactive","native","binned"}
   Optional = {"cond"}
   LocalQs = {}
+  Ordered = TRUE
   Export = TRUE
 INVARIANT ReportsEveryStatistic
 INVARIANT EveryStatisticIsCombined
